@@ -17,12 +17,12 @@ MANIFEST = {
     "C14": {
         "technique": "Lean 4 proof (invariants of a small-step transition-system model of Server::run + Socket::Poll over all histories, callback scripts and kernel answers) + tie by translation of the client-level bodies (tools/gen_server.py, PropsTr) + differential correspondence model vs real Server under virtual time with interposed clock_gettime/epoll_wait/epoll_ctl/send",
         "text": "65 theorems (PropsC14, PropsC14R) over ALL histories of the Lean model (API calls, arbitrary callback scripts that create and remove timers, socket-pair clients, listeners and establishers also from inside callbacks (Act.mkTimer/mkPair/mkListener/mkEst, rm*), any epoll_wait answer in any order, any time advance, any send outcome): no_fault (no null/dangling pointer use), timer_queue_exact, timer_not_early, timer_order, timer_once_per_interval, timer_intervals_positive, activation_moves_due_forward, poll_timeout_is_next_due, callbacks_only_to_live, removed_never_called (all four object kinds, also with events pending), dispatch_only_registered_kinds, client_interest, suspended_client_no_onRead, failed_io_then_onClosed at history level (a queued client gets onClosed or is deleted before run() polls again; membership in the closing list persists across all calls and scripts), run_returns_only_on_interrupt, interrupt_returns_run, interrupt_never_lost, interrupt_eventually_returns (from any reachable state with a pending interrupt run() returns after finitely many steps for every kernel answer that reports the event descriptor — well-founded measure; for quiet callback scripts), kernel_is_asked_again (quiet scripts) and kernel_is_asked_again_any_scripts (ARBITRARY scripts — timer creation, read, write inside callbacks — under ClockOk and ClosingCalm), pending_event_dispatched_or_pruned, ready_eventually_dispatched (liveness over infinite runs: under the explicit kernel-fairness hypothesis KernelFair, after every point of the run there is a later step at which run() has returned, or a non-empty event of the socket is handed to the dispatch switch, or set()/remove() on that socket pruned its event), event_pruned_only_through_its_socket, ready_eventually_dispatched_untouched_socket, interrupt_eventually_returns_any_scripts (the same as interrupt_eventually_returns for arbitrary scripts under ClockOk and ClosingCalm), poll_set_remove_keep_other_events, poll_set_covering_keeps_event, connect_event_outcome (exactly one of onConnected/onAbolished per connect event), connect_event_unregisters, accept_event_outcome (interrupt() of other threads as two interleaved moves), clear_removes_everything, no_callback_after_clear, clear_stale_wakeup_is_harmless (Server::clear() outside run()); round 7 (PropsC14R): no_client_is_removed_between_steps and closing_loop_never_deletes (the deleteClient branch of the closing loop, Server.cpp 277, is dead in the repaired code: whenever the loop pops a client it has a callback and is not _removed), server_set_never_takes_early_return (no set() of suspend/resume/write/write-ready on a registered client asks for the flags already registered, so the early return of Poll::set is not reachable from Server). failed_creation_leaves_no_trace (Move.failCreate: listen/connect/pair returning 0 are moves of all histories and leave no trace). Tie by translation (PropsTr 14 + PropsTrLoop 5 theorems): Poll::set and Poll::remove (tr_pollSet_eq, tr_pollRemove_eq, incl. the epoll_ctl calls made), one iteration of the timer loop (tr_timerIter_eq: re-queue before the callback, default timer, exit condition) and of the closing loop (tr_closingIter_eq, tr_closingIter_exit), ClientImpl::suspend/resume/write/read, the read and write-ready branches of the dispatch chain of run() and the order of its flag tests, Socket::send / Socket::recv (would-block mapping for every system-call answer), mapEvents / unmapEvents are translated from the CURRENT sources on every run (tools/gen_server.py -> lean/Nstd/Generated/ServerTr.lean) and proved equal to the model functions suspend / resume / write / read / writeReady / unmap for every model state, kernel answer and flag set. The model is tied to the current Server.cpp/Socket.cpp on every run: identical op lines are executed on a real Server (socket pairs, loop-back listeners and establishers, virtual clock, epoll_wait answered from the really-ready set permuted/truncated by the schedule, callback scripts) and on the compiled model; an independent Python reference timer scheduler predicts pure timer programs exactly and a monitor evaluates removed_never_called / timer_not_early / timer_order / timeliness / live-object sets directly on the implementation's callback log.",
-        "note": "Trusted: Lean kernel + the three standard axioms; hand translation of Poll::poll, of the accept/connect branches of run(), of remove(Timer&) and of the API functions into the model (validated by the correspondence run, not proved); translated from the current source and proved equal to the model (tools/gen_server.py + PropsTr; trusted there: the translator, the meaning of the primitives in TrC14.lean, integers as mathematical integers, casts as identity, POSIX: a failing call sets errno != 0): ClientImpl::suspend/resume/write/read, read and write-ready branches, Socket::send/recv, mapEvents/unmapEvents. Modelled rather than verified: MultiMap as a key-sorted FIFO multimap with lower-bound find (C01 incl. the repair of D1 — without it the check reports D19 with a 2-timer failing input), PoolList/HashSet/HashMap as reference containers (C02/C03), kernel epoll/eventfd/socket readiness (assumption; the harness prints ENV-FAIL when the kernel deviates), interrupt() from another thread as two moves (flag under the mutex, then event-descriptor write) interleaved arbitrarily with run() in the theorems — the correspondence run exercises interrupt() from callbacks, between runs, from inside epoll_wait and (op `runmt`; timers-only programs and programs with idle registered sockets) from a real second thread racing with run(); weak-memory effects on the unlocked read of _interrupted are not modelled, host-name resolving establishers not modelled (Server::clear() is: Move.clear), failing connects are injected through an interposed getsockopt(SO_ERROR) (a real refused loop-back connect is not deterministic), peers of accepted/connected TCP clients never close in the correspondence runs. Hypotheses of the liveness theorems (explicit in the statements): KernelFair (environment: if the kernel is asked again and again, then again and again an answer reports the socket ready — satisfiability of it for a concrete infinite run is exhibited only on a finite prefix, example exLive), ClosingCalm (an onClosed callback does not make a client fail again; without it the closing loop of the C++ never ends either; implied by scripts without read/write), ClockOk (the clock is not behind the time the timer loop sampled; established by entering run() and by every poll step). 'Dispatched' means handed to the dispatch switch of run() (HandsOut); that the callback is of a registered kind is dispatch_only_registered_kinds. OPEN (not proved): real-time bounds (the model proves only that run() never sleeps past a due timer); the 64-event cap of one epoll_wait is not modelled (it is the reason KernelFair says 'some later answer'). Not modelled (docs/server.md, coverage table): host-name resolving establishers (needs a real resolver thread: not driven), a failing socket option after a successful accept (Server.cpp 370-375). Failing creations (socket()/socketpair()/bind()/listen()/connect()/setsockopt failing inside listen/connect/pair: op failmk with interposed calls) are Move.failCreate (state unchanged); a socket option failing at the connect event (op ofail, interposed setsockopt) is the same model transition as a failed connect (EnvOp.connFail: Poll::remove, onAbolished); socket options that succeed (op opt) have no model effect; a failing accept() after a readiness report is in the model and executed (forced listener report). The branch-hit table of run() (coverage.branch_hits, 41 branches/situations) is measured on every run; 3 are never hit and explained in coverage.branches_never_hit. Top-level API moves may interleave with steps while run() is active: an over-approximation for the safety theorems, not a claim that remove() is thread-safe. The model mirrors the repaired code (fixes/server/01, 02, 03: Server::time raises an interval below 1 ms to 1 ms — with interval 0 the timer loop never ended and interrupt() could not make run() return).",
+        "note": "Trusted: Lean kernel + the three standard axioms; hand translation of Poll::poll, of remove(Timer&) and of the API functions into the model (the accept and connect branches of run() are translated: PropsTrHand tr_acceptBranch_eq, tr_connectBranch_eq, with an applied socket option succeeding) (validated by the correspondence run, not proved); translated from the current source and proved equal to the model (tools/gen_server.py + PropsTr; trusted there: the translator, the meaning of the primitives in TrC14.lean, integers as mathematical integers, casts as identity, POSIX: a failing call sets errno != 0): ClientImpl::suspend/resume/write/read, read and write-ready branches, Socket::send/recv, mapEvents/unmapEvents. Modelled rather than verified: MultiMap as a key-sorted FIFO multimap with lower-bound find (C01 incl. the repair of D1 — without it the check reports D19 with a 2-timer failing input), PoolList/HashSet/HashMap as reference containers (C02/C03), kernel epoll/eventfd/socket readiness (assumption; the harness prints ENV-FAIL when the kernel deviates), interrupt() from another thread as two moves (flag under the mutex, then event-descriptor write) interleaved arbitrarily with run() in the theorems — the correspondence run exercises interrupt() from callbacks, between runs, from inside epoll_wait and (op `runmt`; timers-only programs and programs with idle registered sockets) from a real second thread racing with run(); weak-memory effects on the unlocked read of _interrupted are not modelled, host-name resolving establishers not modelled (Server::clear() is: Move.clear), failing connects are injected through an interposed getsockopt(SO_ERROR) (a real refused loop-back connect is not deterministic), peers of accepted/connected TCP clients never close in the correspondence runs. Hypotheses of the liveness theorems (explicit in the statements): KernelFair (environment: if the kernel is asked again and again, then again and again an answer reports the socket ready — satisfiability of it for a concrete infinite run is exhibited only on a finite prefix, example exLive), ClosingCalm (an onClosed callback does not make a client fail again; without it the closing loop of the C++ never ends either; implied by scripts without read/write), ClockOk (the clock is not behind the time the timer loop sampled; established by entering run() and by every poll step). 'Dispatched' means handed to the dispatch switch of run() (HandsOut); that the callback is of a registered kind is dispatch_only_registered_kinds. OPEN (not proved): real-time bounds (the model proves only that run() never sleeps past a due timer); the 64-event cap of one epoll_wait is not modelled (it is the reason KernelFair says 'some later answer'). Not modelled (docs/server.md, coverage table): host-name resolving establishers (needs a real resolver thread: not driven), a failing socket option after a successful accept (Server.cpp 370-375). Failing creations (socket()/socketpair()/bind()/listen()/connect()/setsockopt failing inside listen/connect/pair: op failmk with interposed calls) are Move.failCreate (state unchanged); a socket option failing at the connect event (op ofail, interposed setsockopt) is the same model transition as a failed connect (EnvOp.connFail: Poll::remove, onAbolished); socket options that succeed (op opt) have no model effect; a failing accept() after a readiness report is in the model and executed (forced listener report). The branch-hit table of run() (coverage.branch_hits, 41 branches/situations) is measured on every run; 3 are never hit and explained in coverage.branches_never_hit. Top-level API moves may interleave with steps while run() is active: an over-approximation for the safety theorems, not a claim that remove() is thread-safe. The model mirrors the repaired code (fixes/server/01, 02, 03: Server::time raises an interval below 1 ms to 1 ms — with interval 0 the timer loop never ended and interrupt() could not make run() return).",
         "design_ref": "DESIGN.md 3/C14",
     },
 }
 PROPS = {"C13": ["Nstd.Server.PropsC13", "Nstd.Server.PropsC13Batch", "Nstd.Server.PropsTr", "Nstd.Server.PropsTr13", "Nstd.Server.PropsTrLoop"],
-         "C14": ["Nstd.Server.PropsC14", "Nstd.Server.PropsC14R", "Nstd.Server.PropsTr", "Nstd.Server.PropsTrLoop"]}
+         "C14": ["Nstd.Server.PropsC14", "Nstd.Server.PropsC14R", "Nstd.Server.PropsTr", "Nstd.Server.PropsTrLoop", "Nstd.Server.PropsTrHand"]}
 LEAN_TARGETS = ["Nstd.Server.Props", "drv_server"]
 DRIVER = "drv_server"
 GEN_TR = C.LEAN / "Nstd" / "Generated" / "ServerTr.lean"
@@ -1239,7 +1239,7 @@ def check_c14(ctx):
             "interrupt_eventually_returns_any_scripts and kernel_is_asked_again_any_scripts hold for arbitrary scripts under ClosingCalm; the class of scripts between 'no read/write' (which implies ClosingCalm) and ClosingCalm itself is characterised only semantically",
             "interrupt() racing with run(): proved for the two-move model (flag, then event descriptor) under sequential consistency; exercised with a real second thread (op runmt) in timers-only programs and with idle clients/listeners registered",
             "not modelled: resolver-based establishers (connect by host name), a socket option failing after a successful accept (Server.cpp 370-375); a failing connect is injected through the interposed getsockopt(SO_ERROR); the 64-event cap of one epoll_wait",
-            "hand-translated, tied only by the correspondence run: Poll::poll, the accept/connect branches of run(), remove(Timer&) (translated from the current source: the client-level bodies, Socket::send/recv, mapEvents/unmapEvents, Poll::set/remove, one iteration of the timer loop and of the closing loop: PropsTr, PropsTrLoop)",
+            "hand-translated, tied only by the correspondence run: Poll::poll, remove(Timer&) (translated from the current source: the client-level bodies, Socket::send/recv, mapEvents/unmapEvents, Poll::set/remove, one iteration of the timer loop and of the closing loop: PropsTr, PropsTrLoop)",
         ]
         ctx.log(f"{len(hs)} histories, {ctx.cov['evaluations']} op lines, {len(diffs)} disagreement(s), monitor failures {len(st.fail)}; callbacks {st.ev}; env-fail {st.envfail}")
         # a history in which the kernel did not behave as assumed is not evidence of anything
